@@ -10,6 +10,21 @@ ALL = ["C%02d" % i for i in range(1, 21)]
 
 # id -> (category, technique, level text, level note, design ref)
 CHECKS = {
+    "C01": ("exploration",
+            "Hypothesis text/option/reference-time generation + injected configuration fault (model file absent) + atheris coverage-guided fuzzing (thorough); oracle = no exception, terminating stream, well-typed renderable result",
+            "Generated-input search over unicode text, vocabulary token soup (impossible dates, stacked modifiers, huge durations), mutated corpus expressions x reference times x all option settings; every call runs with timeout=0 so termination is real; failures bucketed by (exception type, innermost ctparse frame). Exploration: absence is not established, depth 0 is explored only within the stated work bound.",
+            "timeout=0; work bound on candidate sequences (evidence assumptions); model-absent fault simulated by patching os.path.exists before import in a fresh subprocess.",
+            "DESIGN.md 4 (C01)"),
+    "C02": ("exploration",
+            "Hypothesis date-biased token soup and mutated corpus; validity predicate over ALL streamed candidates (fields, calendar, interval order, accessors, span)",
+            "Every candidate of the stream (not only the winner), latent on and off, is checked against a validity predicate written from the property; buckets by failed clause and last rule. Exploration over generated texts; the predicate is exact, the input space is sampled.",
+            "Reference normaliser N (unicodedata) gives the text length for the span bound; free text restricted to code points assigned in Python's unicodedata.",
+            "DESIGN.md 4 (C02)"),
+    "C14": ("exploration",
+            "Hypothesis texts x options x scorers; differential between ctparse() and list(ctparse_gen()) with identical arguments (random scorer seeded identically)",
+            "The single-result call is compared field by field with the stream under identical arguments and scorers; score finiteness and the strictly-better re-emission rule are checked on every stream.",
+            "Assumes the parser is deterministic for a seeded scorer (which C12 checks).",
+            "DESIGN.md 4 (C14)"),
     "C18": ("exploration",
             "Hypothesis-generated pairs of resolutions + all dataset gold strings against a field-tuple equality oracle; round-trip of the bound-free text form",
             "Property-based search over generated pairs of Time/Interval/Duration objects (span-only copies, all single-field edits, independent draws, cross-kind) decides ==, hash and nb_str against an oracle computed from the generated field tuples; every gold string of the bundled dataset is round-tripped. Sampling, not proof: the Time field space is 10^13 values, single-field edits are enumerated per drawn base value.",
